@@ -44,7 +44,7 @@ def floatable(d):
 
 
 def run(ctx):
-    from shapepy import EmptyShape, WholeShape, Primitive, JordanCurve, ConnectedShape
+    from shapepy import EmptyShape, WholeShape, Primitive, JordanCurve, ConnectedShape, DisjointShape
     rng, drv = ctx.rng, ctx.drv
     E, W = EmptyShape(), WholeShape()
 
@@ -126,6 +126,17 @@ def run(ctx):
         ctx.check(eq(J, K, desc) is True, "curve == its rotation is False", desc)
         ctx.check(eq(J, Rv, desc) is False, "curve == its reversal is True (orientation ignored)", desc)
         ctx.check(eq(J, M, desc) is False, "curve == a moved copy is True", desc)
+    # ---- nearly equal areas: an extra hole smaller than every area tolerance must still make the shapes unequal
+    plate = [(-2, -2), (2, -2), (2, 2), (-2, 2)]
+    h1 = [(-1, -1), (-1, F(-1, 2)), (F(-1, 2), F(-1, 2)), (F(-1, 2), -1)]
+    tiny = [(1, 1), (1, 1 + F(1, 2000)), (1 + F(1, 2000), 1 + F(1, 2000)), (1 + F(1, 2000), 1)]
+    X1 = ConnectedShape([shapes.simple(plate), shapes.simple(h1)])
+    X2 = ConnectedShape([shapes.simple(plate), shapes.simple(h1), shapes.simple(tiny)])
+    ctx.case("unequal-pair", "extra-tiny-hole")
+    ctx.check(eq(X1, X2, {"case": "extra tiny hole"}) is False and eq(X2, X1, {"case": "extra tiny hole (swapped)"}) is False, "shapes differing by a tiny extra hole compare equal", {"case": "tiny hole 1/2000"})
+    Y1 = DisjointShape([shapes.simple(plate), shapes.simple([(10, 10), (11, 10), (11, 11), (10, 11)])])
+    Y2 = DisjointShape([shapes.simple(plate), shapes.simple([(10, 10), (11, 10), (11, 11), (10, 11)]), shapes.simple([(20, 20), (20 + F(1, 2000), 20), (20 + F(1, 2000), 20 + F(1, 2000)), (20, 20 + F(1, 2000))])])
+    ctx.check(eq(Y1, Y2, {"case": "extra tiny component"}) is False and eq(Y2, Y1, {"case": "extra tiny component (swapped)"}) is False, "shapes differing by a tiny extra component compare equal", {"case": "tiny component"})
     # ---- redundant vertices (deterministic)
     a = JordanCurve.from_vertices([(0, 0), (1, 0), (2, 0), (2, 2), (0, 2)])
     b = JordanCurve.from_vertices([(2, 2), (0, 2), (0, 0), (1, 0), (2, 0)])
@@ -144,4 +155,14 @@ def run(ctx):
     ctx.check(eq(c1, c3, {"case": "circle 16 vs 8 arcs"}) is False, "circles with different arcs compare equal", {"case": "circle 16 vs 8"})
     ctx.check(eq(mixed, mixed, {"case": "mixed degrees"}) is True and eq(mixed, mixed2, {"case": "mixed degrees commuted"}) is True, "mixed-degree shape equality", {"case": "circle & square"})
     ctx.check(eq(mixed.jordans[0], c1.jordans[0], {"case": "mixed curve vs circle"}) is False, "mixed-degree curve comparison", {"case": "mixed curve"})
+    # mixed-degree curves with redundant vertices (in-place split of straight and curved pieces), every start vertex
+    D = JordanCurve.from_ctrlpoints([[(0.0, 0.0), (2.0, 0.0)], [(2.0, 0.0), (3.0, 1.0), (2.0, 2.0)], [(2.0, 2.0), (1.0, 3.0), (0.0, 2.0)], [(0.0, 2.0), (0.0, 0.0)]])
+    ctx.case("curved-eq", "mixed-degree-with-redundant-vertices")
+    for k in range(4):
+        ctrl = [[tuple(map(float, p)) for p in sgm.ctrlpoints] for sgm in D.segments]
+        Dk = JordanCurve.from_ctrlpoints(ctrl[k:] + ctrl[:k])
+        Ds = copy.deepcopy(Dk)
+        Ds.split([0, 1, 3], [0.5, 0.5, 0.25])
+        for x, y, nm in ((D, Ds, "D==split"), (Ds, D, "split==D"), (Ds, Ds, "split==split"), (Dk, D, "rotated==D")):
+            ctx.check(eq(x, y, {"case": f"mixed degree, start {k}, {nm}"}) is True, "mixed-degree curve with redundant vertices: equal curves compare unequal", {"start": k, "pair": nm})
     ctx.check(eq(E, E, {}) and eq(W, W, {}) and not eq(E, W, {}) and not eq(c1, E, {}), "singleton equality", {"case": "singletons"})
